@@ -123,6 +123,25 @@ func (ex *Exec) bulkCopy(dst *ByteObj, dstOff *smt.Term, src *logNode, srcOff, n
 	dst.head = nd
 }
 
+// readCache memoises byte reads. Results may have been simplified with facts of
+// the path condition, so a nested exploration (merged call) works in a layer of
+// its own that is dropped when its path condition is.
+type readCache struct {
+	m  map[[2]int]*smt.Term
+	up *readCache
+}
+
+func (c *readCache) get(k [2]int) (*smt.Term, bool) {
+	for ; c != nil; c = c.up {
+		if v, ok := c.m[k]; ok {
+			return v, true
+		}
+	}
+	return nil, false
+}
+
+func (c *readCache) put(k [2]int, v *smt.Term) { c.m[k] = v }
+
 // readNode returns the byte at index idx of the snapshot.
 func (ex *Exec) readNode(nd *logNode, idx *smt.Term) *smt.Term {
 	idx = ex.nz(idx)
@@ -131,7 +150,7 @@ func (ex *Exec) readNode(nd *logNode, idx *smt.Term) *smt.Term {
 		key[0] = -nd.id // results depend on the path condition: keep them apart
 	}
 	if (nd.kind != nkDense || nd.shared) && !(ex.forkReads && !idx.IsConst()) { // mutable dense heads are not cached
-		if v, ok := ex.readCache[key]; ok {
+		if v, ok := ex.readCache.get(key); ok {
 			return v
 		}
 	}
@@ -203,7 +222,7 @@ func (ex *Exec) readNode(nd *logNode, idx *smt.Term) *smt.Term {
 			res = tb.Ite(in, ex.readNode(nd.src, tb.Add(nd.srcOff, rel)), ex.readNode(nd.prev, idx))
 		}
 	}
-	ex.readCache[key] = res
+	ex.readCache.put(key, res)
 	return res
 }
 
